@@ -109,11 +109,15 @@ def ucorr(a, b):
 
 
 def fsc(a, b, dfreq):
+    """Reference FSC.  Returns freq, fsc, count, frac_a, frac_b, ambiguous (per shell).
+    A shell is ambiguous when a bin lies within 1e-7 (relative) of one of its two boundaries."""
     a = np.asarray(a, float)
     b = np.asarray(b, float)
     fs = np.meshgrid(*[np.fft.fftfreq(n) for n in a.shape], indexing="ij")
     r = np.sqrt(sum(f**2 for f in fs))
-    lab = np.floor(r / dfreq + 1e-9).astype(int)
+    q = r / dfreq
+    lab = np.floor(q).astype(int)
+    near = np.abs(q - np.round(q)) < 1e-6
     nl = int(lab.max())
     fa = np.fft.fftn(a)
     fb = np.fft.fftn(b)
@@ -124,6 +128,7 @@ def fsc(a, b, dfreq):
     frac_a = np.zeros(nl)
     frac_b = np.zeros(nl)
     count = np.zeros(nl, int)
+    amb = np.zeros(nl, bool)
     ta, tb = pa.sum(), pb.sum()
     for i in range(nl):
         m = lab == i
@@ -135,9 +140,13 @@ def fsc(a, b, dfreq):
         frac_b[i] = pb[m].sum() / tb if tb > 0 else 0
         if den > 0:
             out[i] = cov[m].sum() / den
+    rq = np.round(q).astype(int)
+    for v in np.unique(rq[near]):
+        for k in (v - 1, v):
+            if 0 <= k < nl:
+                amb[k] = True
     freq = (np.arange(nl) + 0.5) * dfreq
-    # distance of every bin to its shell boundary (for deciding labels robustly)
-    return freq, out, count, frac_a, frac_b
+    return freq, out, count, frac_a, frac_b, amb, bool(near[lab >= nl].any() or near[lab == nl - 1].any()) if nl > 0 else False
 
 
 # --------------------------------------------------------------------------- binning (C15)
